@@ -1,7 +1,447 @@
 import M3d.Basic
-/-! Line-protocol handler for C08. Core-only. (stub) -/
-namespace M3d.Drv.C08
+import M3d.Model.Prune
+import M3d.Model.Box
+import M3d.Model.Spatial
+/-!
+Line-protocol handler for C08 (spatial indexes).  Core-only.  See notes/C08.md for the grammar.
 
-def handleAll (ws : List String) : Option String := none
+For every hierarchical query the handler runs the *faithful* model (the pruned traversal, with a
+trace of the leaves it evaluates) and — when the case is flagged `sound` — also the *specification*
+(linear scan over all leaves); if the two differ it prints `SPEC-DIFFERS …`, which can never equal
+an implementation output.
+-/
+namespace M3d.Drv.C08
+open M3d M3d.Prune M3d.Box M3d.Spatial
+
+abbrev Q := Rat
+
+/-- token cursor helpers -/
+def takeRats (n : Nat) (ws : List String) : Option (List Q × List String) := do
+  let xs ← (ws.take n).mapM parseRat
+  if xs.length ≠ n then none else some (xs, ws.drop n)
+
+def takeNat (ws : List String) : Option (Nat × List String) :=
+  match ws with
+  | w :: r => w.toNat?.map (·, r)
+  | [] => none
+
+def takeNats (n : Nat) (ws : List String) : Option (List Nat × List String) := do
+  let xs ← (ws.take n).mapM (·.toNat?)
+  if xs.length ≠ n then none else some (xs, ws.drop n)
+
+def v3 (xs : List Q) (i : Nat) : V3 Q := ⟨xs.getD i 0, xs.getD (i+1) 0, xs.getD (i+2) 0⟩
+def v2 (xs : List Q) (i : Nat) : V2 Q := ⟨xs.getD i 0, xs.getD (i+1) 0⟩
+
+def showLo : Option Q → String | none => "-inf" | some q => showRat q
+def showHi : Option Q → String | none => "+inf" | some q => showRat q
+
+/-! ### prefilters -/
+
+def handleSlab (dim : Nat) (full : Bool) (ws : List String) : Option String := do
+  let (xs, _) ← takeRats (4 * dim) ws
+  let r : Option Q × Option Q :=
+    if dim = 3 then rayBounds3 (v3 xs 0) (v3 xs 3) ⟨v3 xs 6, v3 xs 9⟩
+    else rayBounds2 (v2 xs 0) (v2 xs 2) ⟨v2 xs 4, v2 xs 6⟩
+  let dec := s!"{boolStr (rayAdmits r)} {boolStr (segAdmits r)}"
+  some (if full then s!"{showLo r.1} {showHi r.2} {dec}" else dec)
+
+def handlePbd (dim : Nat) (ws : List String) : Option String := do
+  let (xs, _) ← takeRats (3 * dim + 1) ws
+  if dim = 3 then
+    let c := v3 xs 0; let r := xs.getD 3 0; let b : Box3 Q := ⟨v3 xs 4, v3 xs 7⟩
+    some s!"{showRat (ptBoxDistSq3 c b)} {boolStr (sphereTouches3 c r b)}"
+  else
+    let c := v2 xs 0; let r := xs.getD 2 0; let b : Box2 Q := ⟨v2 xs 3, v2 xs 5⟩
+    some s!"{showRat (ptBoxDistSq2 c b)} {boolStr (sphereTouches2 c r b)}"
+
+/-! ### grouping -/
+
+def chunks (n : Nat) : Nat → List Nat → List (List Nat)
+  | 0, _ => []
+  | k + 1, xs => xs.take n :: chunks n k (xs.drop n)
+
+def isPermOfRange (n : Nat) (xs : List Nat) : Bool :=
+  xs.length == n && (List.range n).all (fun i => xs.count i == 1)
+
+/-- `group <dim> <n> <dim*n ids> <n*2*dim rats>` → the output order of the faithful model. -/
+def handleGroup (ws : List String) : Option String := do
+  let (dim, ws) ← takeNat ws
+  let (n, ws) ← takeNat ws
+  let (ids, ws) ← takeNats (dim * n) ws
+  let (xs, _) ← takeRats (n * 2 * dim) ws
+  let sorted := chunks n dim ids
+  let out :=
+    if dim = 3 then
+      let boxOf : Nat → Box3 Q := fun i => ⟨v3 xs (6 * i), v3 xs (6 * i + 3)⟩
+      groupBounders (bestSplitAxis Box3.union boundsArea3 boxOf) (n + 1) sorted
+    else
+      let boxOf : Nat → Box2 Q := fun i => ⟨v2 xs (4 * i), v2 xs (4 * i + 2)⟩
+      groupBounders (bestSplitAxis Box2.union boundsArea2 boxOf) (n + 1) sorted
+  some (if out.isEmpty then "-" else showList toString out)
+
+/-- shapes: `L i` | `N <a> <b>` -/
+partial def parseBin : List String → Option (Shape Nat × List String)
+  | "L" :: i :: r => i.toNat?.map fun i => (.leaf i, r)
+  | "N" :: r => do
+      let (a, r) ← parseBin r
+      let (b, r) ← parseBin r
+      some (.node a b, r)
+  | _ => none
+
+/-- `bvh <n> <shape>`: the leaves of the real BVH must be a permutation of the input. -/
+def handleBvh (ws : List String) : Option String := do
+  let (n, ws) ← takeNat ws
+  let (t, _) ← parseBin ws
+  some s!"perm={boolStr (isPermOfRange n t.leaves)} n={t.leaves.length}"
+
+/-! ### joined colliders / objects -/
+
+/-- forest shapes: `L i` | `J k <k shapes>` | `H m i1 … im` -/
+partial def parseShape3 (flatten : Bool) (leaf : Nat → Leaf3 Q) :
+    List String → Option (Forest (Leaf3 Q) (Box3 Q) × List String)
+  | "L" :: i :: r => i.toNat?.map fun i => (.leaf (leaf i) .nil, r)
+  | "H" :: m :: r => do
+      let m ← m.toNat?
+      let (ids, r) ← takeNats m r
+      some (grouped flatten (·.box) Box3.union (ids.map leaf), r)
+  | "J" :: k :: r => do
+      let k ← k.toNat?
+      let rec go (k : Nat) (r : List String) (acc : Forest (Leaf3 Q) (Box3 Q)) :
+          Option (Forest (Leaf3 Q) (Box3 Q) × List String) :=
+        match k with
+        | 0 => some (acc, r)
+        | k + 1 => do
+            let (t, r) ← parseShape3 flatten leaf r
+            go k r (Forest.append acc t)
+      let (ch, r) ← go k r .nil
+      some (newJoined flatten (·.box) Box3.union ch, r)
+  | _ => none
+
+partial def parseShape2 (leaf : Nat → Leaf2 Q) :
+    List String → Option (Forest (Leaf2 Q) (Box2 Q) × List String)
+  | "L" :: i :: r => i.toNat?.map fun i => (.leaf (leaf i) .nil, r)
+  | "H" :: m :: r => do
+      let m ← m.toNat?
+      let (ids, r) ← takeNats m r
+      some (grouped false (·.box) Box2.union (ids.map leaf), r)
+  | "J" :: k :: r => do
+      let k ← k.toNat?
+      let rec go (k : Nat) (r : List String) (acc : Forest (Leaf2 Q) (Box2 Q)) :
+          Option (Forest (Leaf2 Q) (Box2 Q) × List String) :=
+        match k with
+        | 0 => some (acc, r)
+        | k + 1 => do
+            let (t, r) ← parseShape2 leaf r
+            go k r (Forest.append acc t)
+      let (ch, r) ← go k r .nil
+      some (newJoined false (·.box) Box2.union ch, r)
+  | _ => none
+
+def showHit (h : Hit Q) : String := s!"{showRat h.scale}:{h.tag}"
+def showHits (hs : List (Hit Q)) : String := s!"{hs.length}" ++ String.join (hs.map fun h => " " ++ showHit h)
+def showOptHit : Option (Hit Q) → String | none => "none" | some h => showHit h
+def showIds (xs : List Nat) : String := if xs.isEmpty then "-" else showList toString xs
+
+/-- prefix of the admitted leaves up to and including the first that answers `true` -/
+def untilTrue {ι : Type} (p : ι → Bool) : List ι → List ι
+  | [] => []
+  | x :: xs => if p x then [x] else x :: untilTrue p xs
+
+/-- canned answer of one leaf for this line's query -/
+inductive Ans where
+  | hits (ss : List Q)
+  | opt (s : Option Q)
+  | flag (b : Bool)
+  | ids (xs : List Nat)
+
+def parseAns (q : String) (ws : List String) : Option (Ans × List String) :=
+  match q with
+  | "ray" => do
+      let (k, ws) ← takeNat ws
+      let (ss, ws) ← takeRats k ws
+      some (.hits ss, ws)
+  | "first" => do
+      let (k, ws) ← takeNat ws
+      if k = 0 then some (.opt none, ws) else do
+        let (ss, ws) ← takeRats 1 ws
+        some (.opt (some (ss.getD 0 0)), ws)
+  | "tri" => do
+      let (k, ws) ← takeNat ws
+      let (xs, ws) ← takeNats k ws
+      some (.ids xs, ws)
+  | _ => do
+      let (k, ws) ← takeNat ws
+      some (.flag (k != 0), ws)
+
+def ansHits (i : Nat) : Ans → List (Hit Q)
+  | .hits ss => ss.zipIdx.map fun (s, j) => ⟨s, 1000 * i + j⟩
+  | _ => []
+def ansOpt (i : Nat) : Ans → Option (Hit Q)
+  | .opt (some s) => some ⟨s, 1000 * i⟩
+  | _ => none
+def ansFlag : Ans → Bool
+  | .flag b => b
+  | _ => false
+def ansIds : Ans → List Nat
+  | .ids xs => xs
+  | _ => []
+
+def parseLeaves (dim : Nat) (q : String) : Nat → List String → List (List Q × Ans) →
+    Option (List (List Q × Ans) × List String)
+  | 0, ws, acc => some (acc.reverse, ws)
+  | n + 1, ws, acc => do
+      let (bx, ws) ← takeRats (2 * dim) ws
+      let (a, ws) ← parseAns q ws
+      parseLeaves dim q n ws ((bx, a) :: acc)
+
+def nargs3 : String → Nat
+  | "ray" => 6 | "first" => 6 | "sphere" => 4 | "seg" => 6 | "rect" => 6 | "tri" => 9 | _ => 0
+def nargs2 : String → Nat
+  | "ray" => 4 | "first" => 4 | "sphere" => 3 | "seg" => 4 | "rect" => 4 | _ => 0
+
+def finish (trace sound : Bool) (res spec : String) (tr : List Nat) : String :=
+  if sound && res != spec then s!"SPEC-DIFFERS faithful={res} spec={spec}"
+  else s!"{res} ; {if trace then showIds tr else "-"}"
+
+/-- `j3|o3 <q> <trace> <sound> <args> <n> <leaves> <shape>` -/
+def handleJ3 (flatten : Bool) (ws : List String) : Option String := do
+  let q ← ws.head?
+  let ws := ws.drop 1
+  let (tr, ws) ← takeNat ws
+  let (snd, ws) ← takeNat ws
+  let (a, ws) ← takeRats (nargs3 q) ws
+  let (n, ws) ← takeNat ws
+  let (ls, ws) ← parseLeaves 3 q n ws []
+  let leaf : Nat → Leaf3 Q := fun i =>
+    let (bx, an) := ls.getD i ([], .flag false)
+    { id := i, box := ⟨v3 bx 0, v3 bx 3⟩,
+      ray := fun _ _ => ansHits i an, first := fun _ _ => ansOpt i an,
+      sphere := fun _ _ => ansFlag an, seg := fun _ _ => ansFlag an, rect := fun _ => ansFlag an,
+      tri := fun _ _ _ => ansIds an }
+  let (f, _) ← parseShape3 flatten leaf ws
+  let items := f.items
+  let fin := finish (tr != 0) (snd != 0)
+  match q with
+  | "ray" =>
+      let o := v3 a 0; let d := v3 a 3
+      let adm := fun (b : Box3 Q) => rayAdmits (rayBounds3 o d b)
+      let hs := joinedRay3 o d f
+      let res := s!"{joinedRayCount3 o d f} {showHits hs}"
+      let sp := items.flatMap (fun l => l.ray o d)
+      some (fin res s!"{sp.length} {showHits sp}" (f.collect adm (fun l => [l.id])))
+  | "first" =>
+      let o := v3 a 0; let d := v3 a 3
+      let adm := fun (b : Box3 Q) => rayAdmits (rayBounds3 o d b)
+      let res := showOptHit (joinedFirst3 o d f)
+      let sp := items.foldl (fun s l => Forest.merge closer s (l.first o d)) none
+      some (fin res (showOptHit sp) (f.collect adm (fun l => [l.id])))
+  | "sphere" =>
+      let c := v3 a 0; let r := a.getD 3 0
+      let adm := fun (b : Box3 Q) => sphereTouches3 c r b
+      let res := boolStr (joinedSphere3 c r f)
+      let sp := boolStr (items.any (fun l => l.sphere c r))
+      some (fin res sp ((untilTrue (fun l => l.sphere c r) (f.collect adm (fun l => [l]))).map (·.id)))
+  | "seg" =>
+      let p := v3 a 0; let p2 := v3 a 3
+      let adm := fun (b : Box3 Q) => segAdmits (rayBounds3 p (p2.sub p) b)
+      let res := boolStr (joinedSeg3 p p2 f)
+      let sp := boolStr (items.any (fun l => l.seg p p2))
+      some (fin res sp ((untilTrue (fun l => l.seg p p2) (f.collect adm (fun l => [l]))).map (·.id)))
+  | "rect" =>
+      let r : Box3 Q := ⟨v3 a 0, v3 a 3⟩
+      let adm := fun (b : Box3 Q) => rectAdmits3 r b
+      let res := boolStr (joinedRect3 r f)
+      let sp := boolStr (items.any (fun l => l.rect r))
+      some (fin res sp ((untilTrue (fun l => l.rect r) (f.collect adm (fun l => [l]))).map (·.id)))
+  | "tri" =>
+      let t1 := v3 a 0; let t2 := v3 a 3; let t3 := v3 a 6
+      let adm := fun (b : Box3 Q) => triAdmits3 (triBox t1 t2 t3) b
+      let res := showIds (joinedTri3 t1 t2 t3 f)
+      let sp := showIds (items.flatMap (fun l => l.tri t1 t2 t3))
+      some (fin res sp (f.collect adm (fun l => [l.id])))
+  | _ => none
+
+/-- `j2 <q> <trace> <sound> <args> <n> <leaves> <shape>` -/
+def handleJ2 (ws : List String) : Option String := do
+  let q ← ws.head?
+  let ws := ws.drop 1
+  let (tr, ws) ← takeNat ws
+  let (snd, ws) ← takeNat ws
+  let (a, ws) ← takeRats (nargs2 q) ws
+  let (n, ws) ← takeNat ws
+  let (ls, ws) ← parseLeaves 2 q n ws []
+  let leaf : Nat → Leaf2 Q := fun i =>
+    let (bx, an) := ls.getD i ([], .flag false)
+    { id := i, box := ⟨v2 bx 0, v2 bx 2⟩,
+      ray := fun _ _ => ansHits i an, first := fun _ _ => ansOpt i an,
+      sphere := fun _ _ => ansFlag an, seg := fun _ _ => ansFlag an, rect := fun _ => ansFlag an }
+  let (f, _) ← parseShape2 leaf ws
+  let items := f.items
+  let fin := finish (tr != 0) (snd != 0)
+  match q with
+  | "ray" =>
+      let o := v2 a 0; let d := v2 a 2
+      let adm := fun (b : Box2 Q) => rayAdmits (rayBounds2 o d b)
+      let hs := joinedRay2 o d f
+      let res := s!"{joinedRayCount2 o d f} {showHits hs}"
+      let sp := items.flatMap (fun l => l.ray o d)
+      some (fin res s!"{sp.length} {showHits sp}" (f.collect adm (fun l => [l.id])))
+  | "first" =>
+      let o := v2 a 0; let d := v2 a 2
+      let adm := fun (b : Box2 Q) => rayAdmits (rayBounds2 o d b)
+      let res := showOptHit (joinedFirst2 o d f)
+      let sp := items.foldl (fun s l => Forest.merge closer s (l.first o d)) none
+      some (fin res (showOptHit sp) (f.collect adm (fun l => [l.id])))
+  | "sphere" =>
+      let c := v2 a 0; let r := a.getD 2 0
+      let adm := fun (b : Box2 Q) => sphereTouches2 c r b
+      let res := boolStr (joinedSphere2 c r f)
+      let sp := boolStr (items.any (fun l => l.sphere c r))
+      some (fin res sp ((untilTrue (fun l => l.sphere c r) (f.collect adm (fun l => [l]))).map (·.id)))
+  | "seg" =>
+      let p := v2 a 0; let p2 := v2 a 2
+      let adm := fun (b : Box2 Q) => segAdmits (rayBounds2 p (p2.sub p) b)
+      let res := boolStr (joinedSeg2 p p2 f)
+      let sp := boolStr (items.any (fun l => l.seg p p2))
+      some (fin res sp ((untilTrue (fun l => l.seg p p2) (f.collect adm (fun l => [l]))).map (·.id)))
+  | "rect" =>
+      let r : Box2 Q := ⟨v2 a 0, v2 a 2⟩
+      let adm := fun (b : Box2 Q) => rectAdmits2 r b
+      let res := boolStr (joinedRect2 r f)
+      let sp := boolStr (items.any (fun l => l.rect r))
+      some (fin res sp ((untilTrue (fun l => l.rect r) (f.collect adm (fun l => [l]))).map (·.id)))
+  | _ => none
+
+/-! ### meshDistFunc -/
+
+/-- `d3|d2 <sound> <c> <n> <box dist>… <m> <ids…>`: faithful `meshDistFunc.Dist` on the halving
+shape of `ids`; output = the distance found. -/
+def handleDist (dim : Nat) (ws : List String) : Option String := do
+  let (snd, ws) ← takeNat ws
+  let (c, ws) ← takeRats dim ws
+  let (n, ws) ← takeNat ws
+  let (xs, ws) ← takeRats (n * (2 * dim + 1)) ws
+  let (m, ws) ← takeNat ws
+  let (ids, _) ← takeNats m ws
+  let w := 2 * dim + 1
+  let d : Nat → Q := fun i => xs.getD (w * i + 2 * dim) 0
+  let shape ← halve ids
+  let res : Option (Q × Nat) :=
+    if dim = 3 then
+      let boxOf : Nat → Box3 Q := fun i => ⟨v3 xs (w * i), v3 xs (w * i + 3)⟩
+      (shape.toMDF boxOf Box3.union).dist (ptBoxDistSq3 (v3 c 0)) d none
+    else
+      let boxOf : Nat → Box2 Q := fun i => ⟨v2 xs (w * i), v2 xs (w * i + 2)⟩
+      (shape.toMDF boxOf Box2.union).dist (ptBoxDistSq2 (v2 c 0)) d none
+  let spec := scanDist d ids none
+  let sh : Option (Q × Nat) → String := fun r => match r with | none => "none" | some (x, _) => showRat x
+  if snd != 0 && sh res != sh spec then some s!"SPEC-DIFFERS faithful={sh res} spec={sh spec}"
+  else some (sh res)
+
+/-! ### CoordTree -/
+
+/-- tree: `_` | `N <coords…> <axis> <lt> <ge>` -/
+partial def parseKD (dim : Nat) : List String → Option (KD (List Q) × List String)
+  | "_" :: r => some (.nil, r)
+  | "N" :: r => do
+      let (c, r) ← takeRats dim r
+      let (ax, r) ← takeNat r
+      let (l, r) ← parseKD dim r
+      let (g, r) ← parseKD dim r
+      some (.node c ax l g, r)
+  | _ => none
+
+def showPt (p : List Q) : String := ",".intercalate (p.map showRat)
+
+def ptLt : List Q → List Q → Bool
+  | [], [] => false
+  | [], _ => true
+  | _, [] => false
+  | a :: as, b :: bs => a < b || (a == b && ptLt as bs)
+
+def insSort (ds : List Q) : List Q := ds.foldl (fun acc x => insertSorted (fun a b => decide (a < b)) x acc) []
+
+def decInv {P : Type} (coord : P → Nat → Q) : KD P → Bool
+  | .nil => true
+  | .node c ax l g =>
+      l.slice.all (fun q => decide (coord q ax < coord c ax)) &&
+      g.slice.all (fun q => !decide (coord q ax < coord c ax)) && decInv coord l && decInv coord g
+
+/-- the queries, generic in the point type (instantiated at `V3 Rat` and `V2 Rat`) -/
+def kdQuery {P : Type} [DecidableEq P] (coord : P → Nat → Q) (sq : P → P → Q) (mk : List Q → P)
+    (un : P → List Q) (dim : Nat) (ws : List String) : Option String :=
+  match ws with
+  | "build" :: ws => do
+      let (n, ws) ← takeNat ws
+      let (xs, ws) ← takeRats (n * dim) ws
+      let (t, _) ← parseKD dim ws
+      let pts := (List.range n).map fun i => (xs.drop (dim * i)).take dim
+      let a := sortBy ptLt pts
+      let b := sortBy ptLt t.slice
+      some s!"inv={boolStr (decInv coord (t.map mk))} perm={boolStr (a == b)}"
+  | "contains" :: ws => do
+      let (p, ws) ← takeRats dim ws
+      let (t, _) ← parseKD dim ws
+      let t := t.map mk; let p := mk p
+      let r := t.contains coord p
+      let sp := t.slice.any (· == p)
+      if r != sp then some s!"SPEC-DIFFERS faithful={boolStr r} spec={boolStr sp}" else some (boolStr r)
+  | "nn" :: ws => do
+      let (p, ws) ← takeRats dim ws
+      let (t, _) ← parseKD dim ws
+      let t := t.map mk; let p := mk p
+      let r := t.nn coord sq p none
+      let sp := scanNN sq p t.slice none
+      match r, sp with
+      | some (d, c), some (d', _) =>
+          if d != d' then some s!"SPEC-DIFFERS faithful={showRat d} spec={showRat d'}"
+          else some s!"{showRat d} {showPt (un c)}"
+      | none, none => some "none"
+      | _, _ => some "SPEC-DIFFERS"
+  | "knn" :: ws => do
+      let (k, ws) ← takeNat ws
+      let (p, ws) ← takeRats dim ws
+      let (t, _) ← parseKD dim ws
+      let t := t.map mk; let p := mk p
+      let r := t.KNN coord sq k p
+      let sp := (insSort (t.slice.map (sq p))).take k
+      if r.map (·.1) != sp then
+        some s!"SPEC-DIFFERS faithful={showList showRat (r.map (·.1))} spec={showList showRat sp}"
+      else some (if r.isEmpty then "-" else showList (fun x => showPt (un x.2)) r)
+  | "sphere" :: ws => do
+      let (p, ws) ← takeRats dim ws
+      let (rr, ws) ← takeRats 1 ws
+      let (t, _) ← parseKD dim ws
+      let t := t.map mk; let p := mk p
+      let r2 := rr.getD 0 0 * rr.getD 0 0
+      let r := t.sphere coord sq p r2
+      let sp := t.slice.any (fun c => decide (sq p c ≤ r2))
+      if r != sp then some s!"SPEC-DIFFERS faithful={boolStr r} spec={boolStr sp}" else some (boolStr r)
+  | _ => none
+
+def handleKD (dim : Nat) (ws : List String) : Option String :=
+  if dim = 3 then
+    kdQuery (P := V3 Q) coord3 V3.sqDist (fun xs => v3 xs 0) (fun p => [p.x, p.y, p.z]) 3 ws
+  else
+    kdQuery (P := V2 Q) coord2 V2.sqDist (fun xs => v2 xs 0) (fun p => [p.x, p.y]) 2 ws
+
+def handleAll (ws : List String) : Option String :=
+  match ws with
+  | "slab3" :: r => handleSlab 3 true r
+  | "slab2" :: r => handleSlab 2 true r
+  | "slabd3" :: r => handleSlab 3 false r
+  | "slabd2" :: r => handleSlab 2 false r
+  | "pbd3" :: r => handlePbd 3 r
+  | "pbd2" :: r => handlePbd 2 r
+  | "group" :: r => handleGroup r
+  | "bvh" :: r => handleBvh r
+  | "j3" :: r => handleJ3 true r
+  | "o3" :: r => handleJ3 false r
+  | "j2" :: r => handleJ2 r
+  | "d3" :: r => handleDist 3 r
+  | "d2" :: r => handleDist 2 r
+  | "kd3" :: r => handleKD 3 r
+  | "kd2" :: r => handleKD 2 r
+  | _ => none
 
 end M3d.Drv.C08
